@@ -336,8 +336,9 @@ class AbstractExcelInPython(ABC):
         result = 0
         range_, sum_range = self._flatten_list(range_), self._flatten_list(sum_range)
         for i in range(len(range_)):
-            if i < len(sum_range) and criteria(range_[i]):
-                result += sum_range[i] or 0
+            # складываются только числовые ячейки диапазона суммирования (текст и пустые дают 0)
+            if i < len(sum_range) and criteria(range_[i]) and type(sum_range[i]) in (int, float):
+                result += sum_range[i]
 
         return result
 
